@@ -983,6 +983,32 @@ def check_c08(world):
                              f'{k2} exit', None, fin[1], **sig))
             if k2 == 'clean' and fin[0] != 'run_return':
                 out.append(V('C08', 'outcome_propagated', f'{nid}: obeyed clean exit but run() raised', None, fin[1], **sig))
+    # send side: a filter that ends with its MQ set up and whose policy propagates that kind of ending puts the
+    # announcement on every one of its channels - the request channel of each synchronized source, the publish channel
+    # if it has outputs - whether or not the neighbour is connected or has been heard from yet
+    oob_push = {}
+    for r in world.reqs:
+        if r[4] == -2:
+            oob_push.setdefault(r[2], set()).add(r[3])
+    oob_pub = {e[3] for e in world.events if e[0] == 'pubx' and e[5] == -2}
+    for nid, fin in ended.items():
+        k_n = kind if nid == x else (exp[nid][0] if nid in exp else None)
+        if k_n is None or not (_FLAGS[nodes[nid].get('prop_exit') or 'all'] & _BIT[k_n]):
+            continue
+        if not any(n == 'init_exit' for n, t, _ in life.get((nid, 0), [])):
+            continue                       # ended before its sockets existed
+        key = f'{nid}#0'
+        n_sync = sum(1 for s2 in nodes[nid].get('sources') or [] if not s2.get('eph'))
+        stats['c08_announcement_send_checks'] += 1
+        if len(oob_push.get(key, ())) < n_sync:
+            out.append(V('C08', 'announcement_not_sent',
+                         f'{nid} ended ({k_n}; cause {cause} at {x}) with propagate policy {nodes[nid].get("prop_exit")} but '
+                         f'pushed its exit announcement on {len(oob_push.get(key, ()))} of the {n_sync} request channels of '
+                         f'its synchronized sources', None, fin[1], channel='request', **sig))
+        if nodes[nid].get('has_output', True) and key not in oob_pub:
+            out.append(V('C08', 'announcement_not_sent',
+                         f'{nid} ended ({k_n}; cause {cause} at {x}) with propagate policy {nodes[nid].get("prop_exit")} but '
+                         f'published no exit announcement on its output', None, fin[1], channel='publish', **sig))
     # completeness (only when X ended while the pipeline was fully connected)
     steady = not sc.get('early') and cause not in ('raise_init', 'raise_setup', 'exit_setup')
     if steady and x in ended:
